@@ -1457,6 +1457,66 @@ Qed.
 
 End Fixed.
 
+(* ################################################################## EXIT KINDS and handler shapes
+   How the body (or the apply loop) is left is a PARAMETER: normal return, an Exception, or a
+   BaseException that is not an Exception (KeyboardInterrupt, SystemExit, GeneratorExit, pytest's
+   Skipped/Failed).  `try: ... finally: restore` runs the restoration for every kind; the shape
+   `try: ... except Exception: restore; raise   else: restore` does not.  The harness ties the
+   running code to HFinally (AST: the restoring loop sits in a `finally:` / ExitStack, fail closed)
+   and injects all three kinds at every fault point.                                               *)
+Inductive exit_kind := ExitReturn | ExitException | ExitBaseException.
+Inductive handler := HFinally | HExceptExceptionElse.
+Definition restores_on (hd : handler) (k : exit_kind) : bool :=
+  match hd, k with
+  | HFinally, _ => true
+  | HExceptExceptionElse, ExitBaseException => false
+  | HExceptExceptionElse, _ => true
+  end.
+Section ExitKinds.
+Variable M : hierarchy.
+(* `xk`: the kind of whatever exception occurs in this activation (in the apply loop or the body) *)
+Definition with_patches_k (hd : handler) (fixed : bool) (specs : list spec) (f : fault) (xk : exit_kind)
+  (body : heap -> heap * outcome) (h : heap) : heap * outcome :=
+  let '(h1, applied, oc) := apply_loop M fixed specs 0 f h [] in
+  let r := match oc with Raised => (h1, Raised) | Returned => body_of f body h1 end in
+  let k := match snd r with Returned => ExitReturn | Raised => xk end in
+  ((if restores_on hd k then restore_all applied (fst r) else fst r), snd r).
+Definition with_amp_k (hd : handler) (ks : list amp_spec) (f : fault) (xk : exit_kind) (body : amp_body)
+  (hp : heap * pstate) : heap * pstate * outcome :=
+  let '(h1, ps1, touched, oc) := amp_enter M true ks 0 f (fst hp) (snd hp) [] in
+  let r := match oc with Raised => (h1, ps1, Raised) | Returned => amp_body_of f body (h1, ps1) end in
+  let k := match snd r with Returned => ExitReturn | Raised => xk end in
+  ((if restores_on hd k then amp_exit_all touched (fst r) else fst r), snd r).
+
+(* `finally` = restoration for EVERY exit kind: the model used by all theorems above is kind-blind *)
+Theorem finally_restores_on_every_exit_kind fixed specs f body h : forall xk,
+  with_patches_k HFinally fixed specs f xk body h = with_patches M fixed specs f body h.
+Proof.
+  intro xk. unfold with_patches_k, with_patches.
+  destruct (apply_loop M fixed specs 0 f h []) as [[h1 applied] oc]. reflexivity.
+Qed.
+Theorem amp_finally_restores_on_every_exit_kind ks f body hp : forall xk,
+  with_amp_k HFinally ks f xk body hp = with_amp M true ks f body hp.
+Proof.
+  intro xk. unfold with_amp_k, with_amp, amp_finish.
+  destruct (amp_enter M true ks 0 f (fst hp) (snd hp) []) as [[[h1 ps1] touched] oc].
+  destruct oc; simpl; [|reflexivity].
+  destruct (amp_body_of f body (h1, ps1)) as [[h2 ps2] oc2]. reflexivity.
+Qed.
+Corollary restores_for_every_exit_kind specs f xk body h :
+  sync_fault f -> body_restores body ->
+  forall u b, fst (with_patches_k HFinally true specs f xk body h) u b = h u b.
+Proof. intros Hf Hb u b. rewrite finally_restores_on_every_exit_kind. now apply apply_patches_restores_exact. Qed.
+Corollary refcount_restores_for_every_exit_kind ks f xk body h ps :
+  sync_fault f -> ps_wf ps -> amp_body_exact body ->
+  let r := with_amp_k HFinally ks f xk body (h, ps) in
+  (forall t a, snd (fst r) t a = ps t a) /\ (forall u b, fst (fst r) u b = h u b).
+Proof.
+  intros Hf Hwf Hb. cbv zeta. rewrite amp_finally_restores_on_every_exit_kind.
+  now apply refcount_restores_exact.
+Qed.
+End ExitKinds.
+
 (* ================================================================== the x64 flag *)
 (* user_interface._temporary_x64(enabled) wraps conversion_api._force_jax_x64(enabled).
    A body maps the flag it is entered with to the flag it leaves behind and how it exits. *)
@@ -1911,3 +1971,16 @@ Example amp_nesting_example :
   forallb (fun t => forallb (fun a => opt_eqb (fst (fst r) t a) (Examples.h0 t a) &&
                                        negb (is_some (snd (fst r) t a))) [0; 1; 2]) [0; 1; 2; 3] = true.
 Proof. vm_compute. repeat split; reflexivity. Qed.
+
+(* `except Exception: restore; raise / else: restore` instead of `finally`: REFUTED by a body left through
+   a BaseException that is not an Exception (KeyboardInterrupt) — nothing is restored *)
+Theorem except_exception_handler_refuted : exists M specs h t a,
+  lookup M (fst (with_patches_k M HExceptExceptionElse true specs NoFault ExitBaseException
+                   (fun x => (x, Raised)) h)) t a <> lookup M h t a /\
+  lookup M (fst (with_patches_k M HExceptExceptionElse true specs NoFault ExitException
+                   (fun x => (x, Raised)) h)) t a = lookup M h t a /\
+  lookup M (fst (with_patches_k M HFinally true specs NoFault ExitBaseException
+                   (fun x => (x, Raised)) h)) t a = lookup M h t a.
+Proof.
+  exists Examples.M0, Examples.specs_ok, Examples.h0, 2, 2. vm_compute. repeat split; try discriminate.
+Qed.
